@@ -12,6 +12,7 @@ mod bed;
 mod gff3;
 mod gtf;
 mod model;
+mod seq;
 
 use std::sync::atomic::{AtomicU64, Ordering::Relaxed};
 
@@ -533,6 +534,8 @@ fn main() {
              E1 *_grammar: every record within k field deviations (k=2 quick, 3 thorough) of three base records over the troublemaker alphabet per text field, boundary positions, 11 scores, \
              all strands and phases, 0..3 attributes x 1..3 values, one-element array vs string, 5-6 file contexts, write_record vs write_line; gff3_lines: every sequence of <=3 lines over 19 \
              record/directive/comment lines; bed_grammar: N in 3..=6 x 1..3 records x k deviations incl. 0..9 other fields of every value type. \
+             *_reuse: every ordered pair and triple of a presence-spanning line/record set per format read through every reader API (one reused Line/Record clean and pre-dirtied, fresh per read, lines()/line_bufs()/record_bufs()); \
+             *_writer_seq: every sequence of <=3 writes on one writer over accepted records and one item per refusal reason, the output must be exactly the accepted lines. \
              distinct = distinct written files (observation logs) for E1, accepted (field, shape, byte) cases for E3. \
              Domain (statement): GTF/BED plain columns free of tab/LF/CR; a GTF key is a non-empty token without ASCII white space; GTF column 1 does not start with '#'; \
              records the writer refuses (CDS without phase, GTF strand '?', BED non-printable/empty fields) are counted, not judged.",
@@ -681,6 +684,89 @@ fn main() {
             vmc::machinery("C18 vacuity: the BED writer accepted nothing");
         }
         ctx.harness(Config::new(format!("bed_grammar_k{k}"), k), bed_grammar);
+
+        // ---- G1: state in reused lines / records; G2: writer state after a refused record ----
+        let tuples = |n: usize| -> Vec<Vec<usize>> {
+            let mut v = Vec::new();
+            for a in 0..n {
+                for b in 0..n {
+                    v.push(vec![a, b]);
+                    for c in 0..n {
+                        v.push(vec![a, b, c]);
+                    }
+                }
+            }
+            v
+        };
+        let to_outcome = |v: Option<vmc::Violation>| -> Outcome {
+            match v {
+                Some(v) => Err(v),
+                None => Ok(()),
+            }
+        };
+        let gset = seq::gff3_set();
+        let gt = tuples(gset.len());
+        ctx.sweep("gff3_reuse", gt.len() as u64, |i| format!("lines {:?} of the presence-spanning set", gt[i as usize]), |i| {
+            let lines: Vec<MLine> = gt[i as usize].iter().map(|&k| gset[k].clone()).collect();
+            to_outcome(seq::gff3_reuse(&lines))
+        });
+        let tset = seq::gtf_set();
+        let tt = tuples(tset.len());
+        ctx.sweep("gtf_reuse", tt.len() as u64, |i| format!("lines {:?} of the presence-spanning set", tt[i as usize]), |i| {
+            let lines: Vec<TLine> = tt[i as usize].iter().map(|&k| tset[k].clone()).collect();
+            to_outcome(seq::gtf_reuse(&lines))
+        });
+        let bt = tuples(7);
+        let nb = (4 * bt.len() * 3) as u64;
+        let decr = |i: u64| {
+            let i = i as usize;
+            (3 + i / (bt.len() * 3), &bt[(i / 3) % bt.len()], (i % 3) as u8)
+        };
+        ctx.sweep(
+            "bed_reuse",
+            nb,
+            |i| {
+                let (n, t, m) = decr(i);
+                format!("BED{n} records {t:?} of the presence-spanning set, read mode {}", bed::READ_MODES[m as usize])
+            },
+            |i| {
+                let (n, t, m) = decr(i);
+                let set = bed::reuse_set(n);
+                let recs: Vec<BRec> = t.iter().map(|&k| set[k].clone()).collect();
+                let mut r = bed::check_file_mode(&recs, m);
+                for v in r.violations.iter_mut() {
+                    v.fingerprint = v.fingerprint.replace("stage=read", "stage=reuse");
+                }
+                first_violation(r.violations)
+            },
+        );
+        ctx.add_distinct((gt.len() + tt.len() + 4 * bt.len()) as u64, (gt.len() * 6 + tt.len() * 6 + 4 * bt.len() * 3) as u64);
+
+        let gw = seq::gff3_witems();
+        let gs = seq::sequences(gw.len());
+        ctx.sweep("gff3_writer_seq", gs.len() as u64, |i| format!("items {:?}", gs[i as usize]), |i| {
+            let items: Vec<seq::WItem> = gs[i as usize].iter().map(|&k| gw[k].clone()).collect();
+            to_outcome(seq::gff3_writer_seq(&items))
+        });
+        let tw = seq::gtf_witems();
+        let ts = seq::sequences(tw.len());
+        ctx.sweep("gtf_writer_seq", ts.len() as u64, |i| format!("items {:?}", ts[i as usize]), |i| {
+            let items: Vec<seq::WItem> = ts[i as usize].iter().map(|&k| tw[k].clone()).collect();
+            to_outcome(seq::gtf_writer_seq(&items))
+        });
+        let bs = seq::sequences(9);
+        ctx.sweep(
+            "bed_writer_seq",
+            (4 * bs.len()) as u64,
+            |i| format!("BED{} items {:?}", 3 + i as usize / bs.len(), bs[i as usize % bs.len()]),
+            |i| {
+                let n = 3 + i as usize / bs.len();
+                let w = bed::witems(n);
+                let items: Vec<bed::WItem> = bs[i as usize % bs.len()].iter().map(|&k| w[k].clone()).collect();
+                to_outcome(bed::judge_seq(n, &items))
+            },
+        );
+        ctx.add_distinct((gs.len() + ts.len() + 4 * bs.len()) as u64, (gs.len() + ts.len() + 4 * bs.len()) as u64);
 
         ctx.extra("c18_counters", json!({"gff3_sweeps": gff_counts, "gtf_sweeps": gtf_counts, "bed_sweeps": bed_counts}));
     });
